@@ -31,6 +31,7 @@ REPLICAS = {
     "As": ["-mbmi2", "-madx"],
     "B": ["-DDISABLE_ASM"],
     "C": ["-DDISABLE_ASM", "-U__SIZEOF_INT128__"],
+    "G": ["@g++"],          # the same sources through the other compiler the Makefile names (g++, asm back end); plain flavour only
 }
 FLAVOURS = {
     "plain": [],
@@ -93,20 +94,24 @@ def main():
             fdir = os.path.join(out, fl)
             shutil.rmtree(fdir, ignore_errors=True)
             for rep, rflags in REPLICAS.items():
+                cxx = CXX
+                if "@g++" in rflags:
+                    if fl != "plain": continue
+                    cxx = "g++"; rflags = [f for f in rflags if f != "@g++"]
                 odir = os.path.join(fdir, "obj-" + rep)
                 os.makedirs(odir, exist_ok=True)
                 objs = []
-                flags = BASE + rflags + FLAVOURS[fl] + ["-I" + os.path.join(repo, "include"), "-I" + os.path.join(VERIF, "adapter")]
+                flags = [f for f in BASE if not (cxx == "g++" and f == "-fno-vectorize")] + rflags + FLAVOURS[fl] + ["-I" + os.path.join(repo, "include"), "-I" + os.path.join(VERIF, "adapter")]
                 for s in srcs + [adapter]:
                     o = os.path.join(odir, os.path.relpath(s, "/").replace("/", "_") + ".o")
-                    jobs.append([CXX, "-c"] + flags + [s, "-o", o])
+                    jobs.append([cxx, "-c"] + flags + [s, "-o", o])
                     objs.append(o)
                 for s in asms:
                     o = os.path.join(odir, os.path.basename(s) + ".o")
                     jobs.append(["as", s, "-o", o])
                     objs.append(o)
                 so = os.path.join(fdir, "libjp_%s.so" % rep)
-                links.append([CXX, "-shared", "-o", so] + objs + FLAVOURS[fl][:1] + ["-Wl,-z,now", "-Wl,-z,relro", "-Wl,-Bsymbolic", "-Wl,-z,noexecstack"])
+                links.append([cxx, "-shared", "-o", so] + objs + FLAVOURS[fl][:1] + ["-Wl,-z,now", "-Wl,-z,relro", "-Wl,-Bsymbolic", "-Wl,-z,noexecstack"])
         with cf.ThreadPoolExecutor(max_workers=int(os.environ.get("JV_JOBS", "16"))) as ex:
             for rc, cmd, txt in ex.map(run, jobs):
                 if rc != 0:
